@@ -28,6 +28,11 @@ CLAIMED = {
    note="Trusted: refpred.rs / spec.rs, the 'message present in the stream' oracle (resynchronisation after an error is the server's choice), overflow-checks + debug-assertions in the harness build. A set REPLY bit on a request and out-of-bounds reads that do not alter arguments are not judged here (the latter: ASan fuzz target). Descriptors passed by the generator back the ranges the messages declare (a mapping past the end of a file faults in any mmap-based back end).",
    technique="grammar-aware mutational property testing (proptest) with independent validity oracle; crash isolation by supervising process",
    ref="DESIGN.md section 3, C05"),
+ "C07": dict(level="exploration",
+   text="Exhaustive enumeration on both endpoints: every acknowledged subset of the 10 gating protocol-feature bits (11 in the postcopy build), each also combined with all non-gating bits, x PROTOCOL_FEATURES offered/acknowledged x every gated operation on the real Frontend (a raw peer counts the bytes put on the wire) and on the real BackendReqHandler (the raw peer negotiates exactly the subset, then sends the gated request; handler log must not grow); every negotiation word up to length 3/4 (front-end API calls resp. raw messages, incl. acknowledge-then-un-acknowledge) followed by every gated operation; the 2^3 Backend-proxy flag settings x 5 requests; GET_PROTOCOL_FEATURES for 47 systematic and 2000 random device feature sets (REPLY_ACK always offered). About 220k cases in quick, complete for the stated finite spaces.",
+   note="Trusted: spec.rs gate table (bit numbers), feops.rs state model of the front end. Only the refusing direction is judged (bit clear => refused, nothing on the wire / handler not invoked); the accepting direction belongs to C02. Longer negotiation histories are covered randomly by C04's model check.",
+   technique="exhaustive configuration / order enumeration with raw-peer byte accounting and handler-log oracle",
+   ref="DESIGN.md section 3, C07"),
  "C08": dict(level="fault_enumeration",
    text="Enumeration of segmentations and truncations for one spec-encoded instance of every request the back-end server implements (incl. a 4096-byte SET_CONFIG and a 32-region SET_MEM_TABLE with 32 descriptors), every back-end-initiated request and every reply/ack kind read by Frontend, Backend proxy and GpuBackend: all 2-splits, all 3-splits of messages up to 64 bytes (selected points for longer ones), byte-by-byte delivery, and every cut offset followed by a half-close (about 25k deliveries in quick). Each next segment is written only after the receiver drained the previous one, so splits are really experienced. Segmented delivery must equal unsplit delivery (result and handler log) and be accepted; a cut must give an error (Disconnected exactly at offset 0), no dispatch, no hang. Sender side: bursts of maximum-size messages from Frontend and BackendReqHandler on non-blocking sockets with minimal SO_SNDBUF against a reader that provokes partial writes (observed in every burst) and checks byte-exact concatenation and descriptor placement.",
    note="Trusted: spec.rs encodings, FIONREAD==0 as 'segment consumed', the inference of a partial write from a stalled sender with an off-boundary byte count. With this kernel's minimum send buffer a descriptor-carrying message (<= 1044 bytes) is never split by a partial write, so descriptor placement under partial writes is only exercised for whole messages. A receiver still blocked after 10 s counts as blocking forever.",
